@@ -203,8 +203,9 @@ def enum_lists(seed):
             fails.append({"model": model, "detail": detail})
     # exhaustive single lines: spacing / comment / sentinel shapes
     pieces = ["", " ", "  ", "\t"]
-    kwsets = [[], ["*"], ["amd64", "*"], ["^"], ["~x86"], ["-"]]
-    comments = ["", "# note", "#", " # two  spaces ", "\t#tab", "# trailing  "]
+    # a '#' glued to a token is part of the keyword; comment texts that also occur inside such a keyword
+    kwsets = [[], ["*"], ["amd64", "*"], ["^"], ["~x86"], ["-"], ["amd64#x86", "*"], ["a#", "#b#"], ["x#note"]]
+    comments = ["", "# note", "#", " # two  spaces ", "\t#tab", "# trailing  ", "#x86", "#note"]
     eols = ["", "\n", "\r\n"]
     for lead, spec, g1, kws, g2, com, eol in itertools.product(["", " "], specs[:2], pieces[1:], kwsets, pieces, comments, eols[:2]):
         if com.startswith("#") and not g2:
@@ -243,7 +244,7 @@ def enum_lists(seed):
             if r < .15:
                 lines.append(rnd.choice(["", "   ", "# just a comment", "\t# c"]) + eol)
                 continue
-            kws = rnd.choice([[], ["*"], ["amd64"], ["~x86", "*"], ["^"], ["arm", "^"], ["-"]])
+            kws = rnd.choice([[], ["*"], ["amd64"], ["~x86", "*"], ["^"], ["arm", "^"], ["-"], ["arm#x", "*"], ["why#why", "^"]])
             if "^" in kws and not has_pkg_above:
                 kws = ["*"]
             has_pkg_above = True
